@@ -13,7 +13,7 @@ let wp_op_of (decls : e2_item list) ((name, a) as it : e2_item) : wp_op op optio
   | "wp_join" -> Some (OUser (WJoin (n 0)))
   | "wp_call" -> Some (OUser (WCall (n 0, n 1, rest 2)))
   | "wp_async" -> Some (OUser (WAsync (n 0, n 1, rest 2)))
-  | "wp_destroy" -> Some (OUser (WDestroy (n 0)))
+  | "wp_destroy" -> Some (OUser (WDestroy (n 0, int_of_z (e2_arg a 1 z0) <> 0)))
   | "wp_tt" -> Some (OUser TT)
   | "wp_pt" -> Some (OUser PT)
   | _ -> (match e2_core_op it with Some c -> Some (OCore c) | None -> None)
@@ -68,7 +68,7 @@ let run_P (l : string) : string =
      | ("wp", a) :: _ -> (true, e2_arg a 0 (z_of_int (-1)), e2_nat (e2_arg a 1 (z_of_int 4)))
      | _ -> (false, z_of_int (-1), nat_of_int 4)) in
   let u0 = u_init (nat_of_int 0) has_pool mode ring in
-  let ((res, alog), (cap, ndisp)) = wp_run (nat_of_int 400000) ps u0 in
+  let ((res, alog), (cap, ndisp)) = wp_run (nat_of_int 150000) ps u0 in
   let ((((tr, bl), now), ended), stuck) = res in
   let is_slot k = (match List.nth_opt ps (int_of_nat k) with Some [OUser TT] | Some [OUser PT] -> true | _ -> false) in
   let tr' = List.filter (fun e -> not (is_slot e.ev_tid)) tr in
